@@ -11,6 +11,7 @@ namespace PaneModel
 open Val in
 /-- `self.ty(val)` of a `ScalarConverter` for the built-in scalar types; other types are externals. -/
 def builtinCtor (E : Ext) (ty : String) (v : Val) : Except Exc Val :=
+  let v := match v with | .sub _ b => b | v => v   -- `int(MyInt(3))` is `3`
   match ty, v with
   | "bool", .bool b => .ok (.bool b)
   | "int", .bool b => .ok (.int (if b then 1 else 0))
@@ -90,13 +91,19 @@ def applyAt (fs : List (Val → Outcome β)) (i : Nat) (v : Val) : Outcome β :=
 
 /-! ## Conditions -/
 
-/-- Python ordering comparison between two real numbers (bool/int/float); anything else raises. -/
-def numCmp (a b : Val) : Except Exc (Option Ordering) :=
+def CmpOp.sym : CmpOp → String
+  | .gt => ">" | .ge => ">=" | .lt => "<" | .le => "<=" | .eq => "==" | .ne => "!="
+
+/-- Python ordering comparison `a <op> b` between two real numbers (bool/int/float); anything else
+raises `TypeError` with CPython's message. -/
+def numCmp (op : CmpOp) (a b : Val) : Except Exc (Option Ordering) :=
+  let err : Exc := { cls := .typeError, msg := "TypeError: '" ++ op.sym ++ "' not supported between instances of '"
+    ++ a.tpName ++ "' and '" ++ b.tpName ++ "'" }
   match a.numParts, b.numParts, a, b with
-  | _, _, .complex _ _, _ => .error { cls := .typeError, msg := "TypeError" }
-  | _, _, _, .complex _ _ => .error { cls := .typeError, msg := "TypeError" }
+  | _, _, .complex _ _, _ => .error err
+  | _, _, _, .complex _ _ => .error err
   | some (x, _), some (y, _), _, _ => .ok (Flt.cmp x y)
-  | _, _, _, _ => .error { cls := .typeError, msg := "TypeError" }
+  | _, _, _, _ => .error err
 
 def CmpOp.holds : CmpOp → Option Ordering → Bool
   | .gt, some .gt => true
@@ -115,27 +122,42 @@ def pyLen : Val → Except Exc Nat
   | .str s | .bytes s | .bytearray s => .ok s.length
   | .list xs | .tuple xs | .set xs | .frozenset xs | .deque xs => .ok xs.length
   | .dict kvs | .mapOf _ kvs => .ok kvs.length
-  | _ => .error { cls := .typeError, msg := "TypeError" }
+  | v => .error { cls := .typeError, msg := "TypeError: object of type '" ++ v.tpName ++ "' has no len()" }
+
+/-- `v <op> bound`: exact for bool/int/float; `Decimal`/`Fraction` operands defer to the real
+arithmetic through `Ext` (their comparison is the stdlib's, not pane's). -/
+def valCmp (E : Ext) (op : CmpOp) (v b : Val) : Except Exc Bool :=
+  match v with
+  | .opaque "Decimal" _ | .opaque "Fraction" _ =>
+    match E.call ("cmp:" ++ op.sym ++ ":" ++ pyRepr E b) v with
+    | .ok (.bool r) => .ok r
+    | .ok _ => .error { cls := .other, msg := "bad cmp table" }
+    | .error e => .error e
+  | _ => (numCmp op v b).map op.holds
+
+/-- `math.isfinite(v)` -/
+def isFiniteV (E : Ext) (v : Val) : Except Exc Bool :=
+  match v with
+  | .bool _ | .int _ => .ok true
+  | .float f => .ok f.isFinite
+  | .opaque "Decimal" _ | .opaque "Fraction" _ =>
+    match E.call "isfinite" v with
+    | .ok (.bool r) => .ok r
+    | .ok _ => .error { cls := .other, msg := "bad isfinite table" }
+    | .error e => .error e
+  | v => .error { cls := .typeError, msg := "TypeError: must be real number, not " ++ v.tpName }
 
 def evalSem (E : Ext) (stock : String → Option CondSem) : CondSem → Val → Except Exc Bool
   | .user id arg, v => E.cond id arg v
-  | .valCmp op b, v => (numCmp v b).map op.holds
+  | .valCmp op b, v => valCmp E op v b
   | .lenCmp op b, v => (pyLen v).map fun n => op.holds (some (compare n b))
-  | .finite, v =>
-    match v with
-    | .bool _ | .int _ => .ok true
-    | .float f => .ok f.isFinite
-    | _ => .error { cls := .typeError, msg := "TypeError" }
+  | .finite, v => isFiniteV E v
   | .stock n, v =>
     match stock n with
     | some (.user id arg) => E.cond id arg v
-    | some (.valCmp op b) => (numCmp v b).map op.holds
+    | some (.valCmp op b) => valCmp E op v b
     | some (.lenCmp op b) => (pyLen v).map fun n => op.holds (some (compare n b))
-    | some .finite =>
-      match v with
-      | .bool _ | .int _ => .ok true
-      | .float f => .ok f.isFinite
-      | _ => .error { cls := .typeError, msg := "TypeError" }
+    | some .finite => isFiniteV E v
     | _ => .error { cls := .other, msg := "unknown stock condition " ++ n }
 
 mutual
